@@ -218,6 +218,20 @@ func (b *BinaryExpression) SQL() string {
 
 	upperOp := strings.ToUpper(op)
 
+	// MATCH (cols) AGAINST (expr [mode]): the parser stores the right side as a call named
+	// AGAINST whose optional second argument holds the mode words
+	if upperOp == "AGAINST" {
+		if ag, ok := b.Right.(*FunctionCall); ok && ag != nil && strings.EqualFold(ag.Name, "AGAINST") && len(ag.Arguments) > 0 {
+			out := exprSQL(b.Left) + " AGAINST (" + exprSQL(ag.Arguments[0])
+			if len(ag.Arguments) > 1 {
+				if mode, ok := ag.Arguments[1].(*LiteralValue); ok && mode != nil {
+					out += " " + fmt.Sprint(mode.Value)
+				}
+			}
+			return out + ")"
+		}
+	}
+
 	// Operands of a left-associative operator: the left one may be of the same
 	// level, the right one must bind tighter. Comparison-level operators take
 	// concatenation-level operands on both sides.
